@@ -657,6 +657,14 @@ Theorem C03_holds_count_last : forall y o fwd,
   Judge.C03.judge B"it.wlast" args (run B"it.wlast" args) = JOk.
 Proof. exact Proofs.C03Holds.holds_end. Qed.
 Print Assumptions C03_holds_count_last.
+(* step_by(s), 1 <= s <= 5000, at most 60 items asked (the bounds of the op) *)
+Theorem C03_holds_step_by : forall y o fwd s cap,
+  year_in_range y = true -> valid_yo y o = true -> 1 <= s <= 5000 -> 0 <= cap <= 60 ->
+  let args := [Proofs.C03Holds.vd y o; VInt (Proofs.C03Holds.dirv fwd); VInt s; VInt cap] in
+  Judge.C03.judge B"it.dstep" args (run B"it.dstep" args) = JOk /\
+  Judge.C03.judge B"it.wstep" args (run B"it.wstep" args) = JOk.
+Proof. exact Proofs.C03Holds.holds_step. Qed.
+Print Assumptions C03_holds_step_by.
 Example C03_holds_inhabited :
   year_in_range 262142 = true /\ valid_yo 262142 100 = true /\ Proofs.C03Holds.near_end_y 262142 true = true /\
   year_in_range (-262143) = true /\ valid_yo (-262143) 100 = true /\ Proofs.C03Holds.near_end_y (-262143) false = true /\
